@@ -463,6 +463,53 @@ def r6(k: Kit) -> None:
     rep.floor('C07.R6', 'partial-consumption stores', sites, 2)
 
 
+def r7(k: Kit) -> None:
+    from .shared import writer_before_backlog
+    rep = k.rep
+    rep.rule('C07.R7', 'late redirection: the target is installed before '
+             'the backlog is flushed to it; a stream read that un-paused the '
+             'channel (which synchronously delivers queued data and EOF) '
+             're-scans the buffer before it decides to return, break or '
+             'block')
+    writer_before_backlog(k, 'C07.R7')
+    n = 0
+    for fi in k.idx.iter_funcs(['stream']):
+        res = k.calls_named(fi, '_maybe_resume_reading', 'self')
+        blocks = [b.id for b, c in k.calls_named(fi, '_block_read')]
+        if not res or not blocks:
+            continue
+        g = k.cfg(fi)
+        scans = [a.id for a in g.nodes if a.kind == 'atom' and
+                 dotted(a.ast) == 'recv_buf']
+        for nd, c in res:
+            if all(g.path(nd.id, b, follow_exc=False) is None
+                   for b in blocks):
+                continue           # nothing is decided after this resume
+            n += 1
+            if nd.kind != 'atom':
+                rep.violation('C07.R7', key(fi, 'resume result used'),
+                              'the result of _maybe_resume_reading() is '
+                              'ignored although the function goes on to '
+                              'break, return or block: data and EOF the '
+                              'resume just delivered are not looked at, so '
+                              'read() returns a prefix / readexactly() '
+                              'raises IncompleteReadError with the rest '
+                              'already buffered', k.loc(fi, nd))
+                continue
+            w = None
+            for b, lab in g.succ[nd.id]:
+                if lab is True:
+                    for tgt in blocks + [g.exit]:
+                        w = w or (None if b in scans else g.path(
+                            b, tgt, blocked_nodes=scans, follow_exc=False))
+            rep.check(w is None, 'C07.R7', key(fi, 'rescan after resume'),
+                      'a resume that released data leads back to the buffer '
+                      'scan', 'after a successful resume the function can '
+                      'return or block without re-scanning the buffer',
+                      k.loc(fi, nd), g.describe_path(w) if w else None)
+    rep.floor('C07.R7', 'resume sites followed by a decision', n, 1)
+
+
 def run(idx, rep, tier):
     k = Kit(idx, rep)
     rep.assumptions += NOT_DECIDED
@@ -472,3 +519,4 @@ def run(idx, rep, tier):
     r4(k)
     r5(k)
     r6(k)
+    r7(k)
